@@ -579,6 +579,15 @@ fn rand_text(rng: &mut Rng, max: usize, multiline: bool) -> String {
 
 /// one emacs-mode key press (possibly a short multi-key idiom), as tokens
 pub fn emacs_key(rng: &mut Rng, out: &mut Vec<String>, helper: bool) {
+    if rng.chance(1, 50) {
+        // kill, yank, a character delete, yank-pop: the delete must end the yank (a stale yank size
+        // would be subtracted from the cursor)
+        out.push(rng.pick(&["15", "0b", "17", "1b7f"]).to_string());
+        out.push("19".to_string());
+        out.push(rng.pick(&["7f", "08", "04", "1b5b337e", "02"]).to_string());
+        out.push("1b79".to_string());
+        return;
+    }
     match rng.below(100) {
         0..=34 => out.push(tok_char(*rng.pick(TEXT))),
         35..=49 => {
@@ -1241,12 +1250,23 @@ fn complete_keys(rng: &mut Rng, out: &mut Vec<String>) {
     }
 }
 
-fn random_helper(rng: &mut Rng, flags: &mut String, profile: Profile) -> String {
+fn random_helper(rng: &mut Rng, flags: &mut String, profile: Profile, cols: u16) -> String {
     let mut parts: Vec<String> = vec![];
     if profile == Profile::Complete || rng.chance(2, 3) {
         let k = if profile == Profile::Complete { 1 + rng.below(4) } else { rng.below(4) };
-        let cands: Vec<String> =
+        let mut cands: Vec<String> =
             (0..k).map(|_| rng.pick(&["ab", "abc", "abé", "b", "", "a b", "aZ", "漢a"]).to_string()).collect();
+        if cols <= 20 && rng.chance(1, 4) {
+            // candidates about as wide as the terminal (the listing's column arithmetic)
+            for _ in 0..(1 + rng.below(2)) {
+                let w = (cols as usize).saturating_sub(3) + rng.below(6);
+                let mut c = String::from("ab");
+                while c.chars().count() < w {
+                    c.push(*rng.pick(&['x', 'y', '漢', 'z']));
+                }
+                cands.push(c);
+            }
+        }
         parts.push(format!("C={}", enc_texts(&cands)));
         if rng.chance(1, 3) {
             flags.push('l');
@@ -1330,8 +1350,9 @@ pub fn gen_profile(ctx: &GenCtx, tag: &str, profile: Profile, sink: &mut dyn FnM
             Profile::History | Profile::Search | Profile::Kill | Profile::Undo => 6,
             Profile::Doc => 8,
         };
+        let cols = *rng.pick(&[80u16, 80, 20, 10]);
         if rng.chance(1, hprob) {
-            helper = random_helper(&mut rng, &mut flags, profile);
+            helper = random_helper(&mut rng, &mut flags, profile, cols);
         }
         let nh = match profile {
             Profile::History | Profile::Search => 1 + rng.below(5),
@@ -1356,7 +1377,7 @@ pub fn gen_profile(ctx: &GenCtx, tag: &str, profile: Profile, sink: &mut dyn FnM
             "{} {} {} {} {} {} {} {} {}",
             tag,
             if vi { "v" } else { "e" },
-            rng.pick(&[80u16, 80, 20, 10]),
+            cols,
             if flags.is_empty() { "-" } else { &flags },
             enc_texts(&hist),
             enc_text(&left),
